@@ -89,10 +89,11 @@ def run_one(seed, tape, opts):
                   or (mine is not None and n in mine and tape.choose(4, "ln2"))]
         listens[s.name] = lnames
         ops = []
-        nsub = tape.choose(4, "nsub")
+        big = opts.get("_tier") == "thorough"
+        nsub = tape.choose(7 if big else 4, "nsub")
         for i in range(nsub):
             ops.append(("open", tape.pick(POOL, "oname")))
-        for j in range(tape.choose(10, "nops")):
+        for j in range(tape.choose(30 if big else 10, "nops")):
             k = tape.choose(10, "opk")
             if k < 4:
                 ops.append(("write", tape.choose(3, "wh"),
